@@ -57,6 +57,10 @@ func VerifC05() {
 	}
 	failAt := int(verifChoose("failAt", 0, uint(len(want)))) // == len(want): never fails
 	visits := 0
+	opts := []Option{WithBranchFormatLastNode(ld, li), WithBranchFormatIntermedialNode(md, mi)}
+	if verifFlag("encodeOption") {
+		opts = append(opts, WithEncodeJSON()) // an Output-only option: the walk must not be affected by it
+	}
 	verifContext("C05.walk")
 	err := WalkFromMarkdown(&verifReader{lines: rows}, func(wn *WalkerNode) error {
 		verifAssert(visits <= failAt, "C05.stop.nomore")
@@ -70,7 +74,7 @@ func VerifC05() {
 			return errVerifStop
 		}
 		return nil
-	}, WithBranchFormatLastNode(ld, li), WithBranchFormatIntermedialNode(md, mi))
+	}, opts...)
 	if failAt < len(want) {
 		verifAssert(err == errVerifStop, "C05.stop.err")
 		verifAssert(visits == failAt+1, "C05.stop.count")
